@@ -150,6 +150,12 @@ func (in *Interp) Init() *ctl {
 	for _, f := range in.prog.Funcs {
 		in.globals.vars[f.Name] = &cell{&FnV{Name: f.Name, Decl: f, Body: f.Body, Params: f.Params}}
 	}
+	// the methods of an impl block are functions of the module
+	for _, ib := range in.prog.Impls {
+		for _, f := range ib.Methods {
+			in.globals.vars[f.Name] = &cell{&FnV{Name: f.Name, Decl: f, Body: f.Body, Params: f.Params}}
+		}
+	}
 	for _, g := range in.prog.Globals {
 		v, c := in.eval(g.X, in.globals)
 		if c != nil {
